@@ -12,6 +12,9 @@ from .tlc import TlcFailure
 
 
 def main(argv: list[str]) -> int:
+    import logging
+
+    logging.getLogger("codemodder").addHandler(logging.NullHandler())
     if not argv:
         print(__doc__)
         return 2
